@@ -202,11 +202,10 @@ func TestVF_C08(t *testing.T) {
 		}})
 	}
 	for i, p := range pairs {
+		// three variants: every small pair meets protocols 2, 3 and 4 (the variants also flip direction and base64/binary)
 		add(i, p, false, 0)
-		if vfThorough() {
-			add(i, p, false, 1)
-			add(i, p, false, 2)
-		}
+		add(i, p, false, 1)
+		add(i, p, false, 2)
 	}
 	nb := vfPick(10, len(big))
 	for i := 0; i < nb; i++ {
